@@ -393,7 +393,14 @@ def _log_fn(name, field, sort):
     return z3.Function('log.%s.%s' % (name, field), z3.IntSort(), sort)
 
 
+class _GhostEffectInMergedOperand(Exception):
+    """raised by a model that changes ghost state while the engine evaluates the right operand of `and` / `or`
+    speculatively (merged, without a case split): the engine then re-runs the path with a real case split there"""
+
+
 def _log_append(interp, name, **fields):
+    if interp.st.scopes:
+        raise _GhostEffectInMergedOperand(name)
     lg = _log(interp, name)
     n = lg['n']
     nt = to_z3(n)
@@ -927,8 +934,17 @@ class _StubMatcher:
         return None
 
 
+def _raise_unless_dir(name, is_dir):
+    """a pruning matcher that is defined for directories only (like `dir-contents ...`): HARD_ERROR on anything else"""
+    if not is_dir:
+        raise HardErrorException(None)
+    return False
+
+
 _PRUNERS = {
     'none': (None, lambda name, t: False),
+    'partial: defined for directories only, prunes nothing': (lambda: _StubMatcher(_raise_unless_dir),
+                                                               lambda name, t: False),
     'named-a': (lambda: _StubMatcher(lambda name, is_dir: name == 'a'), lambda name, t: name == 'a'),
     'all': (lambda: constant_matcher.MatcherWithConstantResult(True), lambda name, t: True),
 }
@@ -1011,7 +1027,7 @@ def _bounded_generator(ctx):
     ctx.bounded_result('models._FilesGeneratorForRecursive.generate / _FilesGeneratorForNonRecursive.generate / '
                        '_FilesMatcherModelForDir.files on real directories',
                        bound='all trees of regular files, directories and symbolic links (to a file, to a directory, '
-                             'dangling) with <= %d nodes, depth <= %d; (min, max) in {None,0..3}^2; 3 pruning x 3 '
+                             'dangling) with <= %d nodes, depth <= %d; (min, max) in {None,0..3}^2; 4 pruning x 3 '
                              'selection matchers' % (max_nodes, max_depth),
                        cases=cases, exhaustive=True, failures=failures,
                        note='%d trees; compared: set of relative paths, no duplicates, breadth-first order '
@@ -1452,6 +1468,7 @@ def _scandir(interp, args, kwargs):
         if 'remaining_dirs' in fr.locals:
             snap['q0'] = wrap(fr.locals['remaining_dirs'].length)
             break
+    snap['a0'] = _log(interp, 'applied')['n']
     interp.st.ghost['scan'] = snap
     return entries
 
@@ -1520,8 +1537,63 @@ def queued_are_the_unpruned_directories(cur, prune, entries, i, q):
         den(q[k]._relative_parent) == join0(rel, P0(entries[j].name)))))
 
 
+def _prune_matches_w_trace(interp, self, args, kwargs):
+    """the pruning matcher of -with-pruned: every APPLICATION is a ghost event (log `applied`: the entry it is applied
+    to); it may be defined for directories only (dir-contents ...): HardErrorException is a possible outcome"""
+    model = args[0]
+    entry = model._file_type_access._dir_entry if isinstance(model, models._FileMatcherModel) else None
+    src = wrap(entry._pv_index[0]) if entry is not None and entry._pv_index else -1
+    _log_append(interp, 'applied', src=src, fid=_fid_of(interp, [model], {}))
+    # (a HardErrorException of a partial matcher leaves `generate` at once -- an allowed outcome on which nothing is
+    # claimed -- so that outcome is not explored here)
+    return _matches_w_trace(interp, self, args, kwargs)
+
+
+class PruneMatcherI(FileMatcherI):
+    methods = {'matches_w_trace': Method(model=_prune_matches_w_trace)}
+
+
+def applied_count():
+    """number of applications of the pruning matcher so far (proof level)"""
+    raise NotImplementedError
+
+
+def applied_src(k):
+    """index (in the scan of its directory) of the entry the pruning matcher was applied to the k-th time"""
+    raise NotImplementedError
+
+
+def applied_at_scan():
+    raise NotImplementedError
+
+
+M.model(applied_count, lambda interp, args, kwargs: _log(interp, 'applied')['n'])
+M.model(applied_src, lambda interp, args, kwargs: wrap(_log_fn('applied', 'src', z3.IntSort())(to_z3(args[0]))))
+M.model(applied_at_scan, lambda interp, args, kwargs: interp.st.ghost['scan']['a0'])
+
+
+def pruning_matcher_applied_to_directories_only(self, cur, prune, entries, i):
+    """Reference manual (-with-pruned): the pruning matcher is applied to directories (and symbolic links to
+    directories) only.  After the first i entries of the scanned directory: not applied at all when depth == max (or
+    when there is no pruning matcher); otherwise as many times as there are directories among them, each time to a
+    directory, in the order of the entries and never twice to the same -- i.e. exactly ONCE to each directory, and to
+    nothing else."""
+    a0 = applied_at_scan()
+    n = applied_count()
+    if at_max(self, cur.depth) or not is_opaque(prune):
+        return n == a0
+    return n - a0 == count_prefix(entries, i, entry_is_directory) \
+        and forall_range(a0, n, lambda k: 0 <= applied_src(k) and applied_src(k) < i
+                                          and entries[applied_src(k)].dir_flag) \
+        and forall_range(a0, n - 1, lambda k: applied_src(k) < applied_src(k + 1))
+
+
+def entry_is_directory(e):
+    return e.dir_flag
+
+
 M.contract(P_MODELS + ':_FilesGeneratorForRecursive.generate',
-           params=dict(self=GENERATOR, root_dir_path=DESCRIBED_PATH, directory_prune=Opt(FILE_MATCHER)),
+           params=dict(self=GENERATOR, root_dir_path=DESCRIBED_PATH, directory_prune=Opt(Iface(PruneMatcherI))),
            yields=ListOf(Iface(FileModelI)),
            # os.scandir failing is NOT translated (only is_dir() is): an OSError may escape, see notes/C15.md
            may_raise=(HardErrorException, OSError),
@@ -1529,9 +1601,9 @@ M.contract(P_MODELS + ':_FilesGeneratorForRecursive.generate',
            raises_only=())
 M.loop(P_MODELS + ':_FilesGeneratorForRecursive.generate', 0,
        invariant=lambda self, remaining_dirs: worklist_ok(self, remaining_dirs),
-       modifies=dict(remaining_dirs=_WORKLIST, yielded='len', current_file='local',
-                     is_within_min_depth_limit='local', is_not_at_max_depth='local', dir_entry='local',
-                     current_file_model='local'))
+       modifies={'remaining_dirs': _WORKLIST, 'yielded': 'len', 'current_file': 'local',
+                 'is_within_min_depth_limit': 'local', 'is_not_at_max_depth': 'local', 'dir_entry': 'local',
+                 'current_file_model': 'local', 'ghost:applied': Custom(_mk_log)})
 M.loop(P_MODELS + ':_FilesGeneratorForRecursive.generate', 1,
        invariant=lambda _i, _xs, self, current_file, remaining_dirs, yielded, is_within_min_depth_limit,
                         is_not_at_max_depth, directory_prune:
@@ -1541,8 +1613,10 @@ M.loop(P_MODELS + ':_FilesGeneratorForRecursive.generate', 1,
        and (self._max_depth is None or current_file.depth <= self._max_depth) and current_file.depth >= 0
        and step(self, current_file, _xs, _i, remaining_dirs, yielded)
        and (at_max(self, current_file.depth)
-            or queued_are_the_unpruned_directories(current_file, directory_prune, _xs, _i, remaining_dirs)),
-       modifies=dict(remaining_dirs=_WORKLIST, yielded='len', dir_entry='local', current_file_model='local'))
+            or queued_are_the_unpruned_directories(current_file, directory_prune, _xs, _i, remaining_dirs))
+       and pruning_matcher_applied_to_directories_only(self, current_file, directory_prune, _xs, _i),
+       modifies={'remaining_dirs': _WORKLIST, 'yielded': 'len', 'dir_entry': 'local', 'current_file_model': 'local',
+                 'ghost:applied': Custom(_mk_log)})
 
 
 # ============================================================================== FILES-CONDITION: repeated file names
@@ -1924,3 +1998,75 @@ M.loop(P_CDC + ':_CopyDirContents.populate', 0,
        invariant=lambda _i, _xs, directory, old:
        copied_count() == old + _i and copied_in_order(_xs, den(directory.primitive), old, _i),
        modifies={'src_path': 'local', 'ghost:copied': Custom(_mk_log), 'ghost:fs_epoch': Nat})
+
+
+# ============================================================================== file name parts: stem, suffixes, suffix
+# Reference manual, "File name parts" (table of impls/types/file_matcher/impl/names/doc.py): the stem is what precedes
+# the FIRST dot of the name, `suffixes` is the rest (from the first dot), `suffix` is the part from the LAST dot -- a
+# leading dot and a trailing dot count: 'f.' has suffix '.', '.x.y' has stem '' / suffixes '.x.y' / suffix '.y'.
+
+from exactly_lib.impls.types.file_matcher.impl.names import properties as name_properties, doc as names_doc
+
+P_NP = 'exactly_lib.impls.types.file_matcher.impl.names.properties'
+
+
+def is_stem_of(name, stem):
+    """the part of the name before its first dot (the whole name if it has no dot)"""
+    return name.startswith(stem) and '.' not in stem and (stem == name or name[len(stem)] == '.')
+
+
+def is_suffixes_of(name, rest):
+    """the part of the name from its first dot ('' if it has no dot)"""
+    if '.' not in name:
+        return rest == ''
+    return name.endswith(rest) and rest.startswith('.') and '.' not in name[:len(name) - len(rest)]
+
+
+def is_suffix_of(name, suffix):
+    """the part of the name from its last dot ('' if it has no dot)"""
+    if '.' not in name:
+        return suffix == ''
+    return name.endswith(suffix) and suffix.startswith('.') and '.' not in suffix[1:]
+
+
+M.contract(P_NP + ':get_stem_from_name', params=dict(name=Str), returns=Str, inline=True,
+           ensures={'what precedes the first dot': lambda name, result: is_stem_of(name, result)}, raises_only=())
+M.contract(P_NP + ':get_suffixes_from_name', params=dict(name=Str), returns=Str, inline=True,
+           ensures={'from the first dot': lambda name, result: is_suffixes_of(name, result)}, raises_only=())
+M.contract(P_NP + ':get_suffix_from_name', params=dict(name=Str), returns=Str,
+           ensures={'from the last dot (a leading and a trailing dot count)': lambda name, result:
+           is_suffix_of(name, result)}, raises_only=())
+M.contract(P_NP + ':get_name_from_name', params=dict(name=Str), returns=Str, inline=True,
+           ensures={'the name': lambda name, result: result == name}, raises_only=())
+
+
+def stem_and_suffixes(name):
+    """Harness: the two parts at the first dot."""
+    return name_properties.get_stem_from_name(name) + name_properties.get_suffixes_from_name(name)
+
+
+M.contract('contracts.C15_dirtrees:stem_and_suffixes', params=dict(name=Str),
+           ensures={'stem + suffixes is the name': lambda name, result: result == name}, raises_only=())
+
+
+@M.check('file name parts')
+def _name_parts(ctx):
+    """the table of the reference manual, row by row, through the real functions; and the getters the three matchers
+    are built with"""
+    for ex in names_doc.file_name_examples():
+        got = (name_properties.get_stem_from_name(ex.name), name_properties.get_suffixes_from_name(ex.name),
+               name_properties.get_suffix_from_name(ex.name))
+        ctx.obligation('manual, File name parts: %r has stem %r, suffixes %r, suffix %r'
+                       % (ex.name, ex.stem, ex.suffixes, ex.suffix), got == (ex.stem, ex.suffixes, ex.suffix),
+                       'enumeration', detail={'actual': got})
+    for name in ('.gitignore', 'notes.', '.', '..', 'a..b', ''):
+        ok = is_stem_of(name, name_properties.get_stem_from_name(name)) \
+            and is_suffixes_of(name, name_properties.get_suffixes_from_name(name)) \
+            and is_suffix_of(name, name_properties.get_suffix_from_name(name))
+        ctx.obligation('first dot / last dot rule on %r' % name, ok, 'enumeration')
+
+
+@M.check('pathlib axioms')
+def _c15_axioms(ctx):
+    """the facts of pathlib this module relies on (A1-A11, L1), against CPython"""
+    pathspec.check_pathlib_axioms(ctx)
